@@ -70,3 +70,40 @@ Theorem C09_rl_session_end_nothing_pending : forall LossV l h b st al cs sc',
   end_session LossV (RL LossV l h b st al cs) = inl sc' -> exists q, sc' = RL LossV l h b true false (q, q).
 Proof. exact rl_session_end_nothing_pending. Qed.
 Print Assumptions C09_rl_session_end_nothing_pending.
+
+(* ---- round 4: sampler.batch_size reassigned after construction (Model/CalibX.v, operation XSetBsize) ----
+   The reassignment changes nothing but the batch size of the sampler object(s) with that identity ... *)
+From BlackIt Require Import Model.CalibX Proofs.CalibXP.
+Theorem C09_batch_size_reassigned_frame :
+  forall Param Series LossV model lossf loss_leb rounds0 propose draws agent_actions plan s u b s1 e r,
+  xstep Param Series LossV model lossf loss_leb rounds0 propose draws agent_actions plan s (XSetBsize u b) = (s1, e, r) ->
+    e = None /\ r = [] /\ disk _ _ _ s1 = disk _ _ _ s /\
+    records _ _ _ (live _ _ _ s1) = records _ _ _ (live _ _ _ s) /\
+    cfg _ _ _ (live _ _ _ s1) = cfg _ _ _ (live _ _ _ s) /\ tbl _ _ _ (live _ _ _ s1) = tbl _ _ _ (live _ _ _ s) /\
+    rng_pos _ _ _ (live _ _ _ s1) = rng_pos _ _ _ (live _ _ _ s) /\
+    sched_samplers _ (sch _ _ _ (live _ _ _ s1)) = map (set_bsize u b) (sched_samplers _ (sch _ _ _ (live _ _ _ s))).
+Proof. intros. eapply xsetbsize_frame; eauto. Qed.
+Print Assumptions C09_batch_size_reassigned_frame.
+
+(* ... so the sampler designated for the next batch keeps its position, class and identity, and carries the ASSIGNED batch
+   size; C09_batch_has_designated_size (universal in the state) then gives a batch of exactly that many rows. *)
+Theorem C09_batch_size_reassigned_designation :
+  forall Param Series LossV model lossf loss_leb rounds0 propose draws agent_actions plan s u b s1 e r i sc1,
+  xstep Param Series LossV model lossf loss_leb rounds0 propose draws agent_actions plan s (XSetBsize u b) = (s1, e, r) ->
+  next_sampler LossV agent_actions (sch _ _ _ (live _ _ _ s)) = Some (i, sc1) ->
+  exists sc1', next_sampler LossV agent_actions (sch _ _ _ (live _ _ _ s1)) = Some (i, sc1') /\
+    forall m, nth_error (sched_samplers _ sc1) i = Some m ->
+      nth_error (sched_samplers _ sc1') i = Some (set_bsize u b m) /\
+      s_class (set_bsize u b m) = s_class m /\ s_uid (set_bsize u b m) = s_uid m /\
+      s_bsize (set_bsize u b m) = if Nat.eqb (s_uid m) u then b else s_bsize m.
+Proof.
+  intros until sc1. intros H1 H2.
+  destruct (xsetbsize_designation _ _ _ _ _ _ _ _ _ _ _ _ _ _ _ _ _ _ _ H1 H2) as (sc1' & Hn & Hm).
+  exists sc1'. split; [exact Hn|]. intros m Hm'. split; [now apply Hm|].
+  pose proof (set_bsize_keeps u b m). tauto.
+Qed.
+Print Assumptions C09_batch_size_reassigned_designation.
+
+Example C09_example_reassigned_size :
+  map s_bsize (map (set_bsize 1 3) [mkS 0 0 2 0 None; mkS 1 1 2 5 (Some 7%Z); mkS 0 1 1 0 None]) = [2; 3; 3].
+Proof. reflexivity. Qed.
